@@ -287,6 +287,10 @@ def run(ctx):
                 if len(args) != 3:
                     return False
                 d = ir.unwrap(args[2])
+                while isinstance(d, dict) and d.get("k") == "cast":
+                    d = ir.unwrap(d["e"])
+                if isinstance(d, dict) and d.get("k") == "ref" and d.get("const_init") is not None:
+                    d = ir.unwrap(d["const_init"])  # the separator as a named constant
                 if not (isinstance(d, dict) and d.get("k") == "lit" and d.get("v") == ord(";")):
                     return False
                 s = ir.unwrap(args[0])
@@ -316,6 +320,11 @@ def run(ctx):
             if k == "toggle":
                 # given_ = parse_env_value(<carrier>)
                 r0 = ir.unwrap(rhs)
+                # the bool -> count conversion spelled out: `parse_env_value(w) ? 1 : 0` stores what the implicit conversion stores
+                if isinstance(r0, dict) and r0.get("k") in ("cond", "ternary", "conditional"):
+                    cc, tt, ff = (r0.get("c") if r0.get("c") is not None else r0.get("cond")), (r0.get("t") if isinstance(r0.get("t"), dict) else r0.get("then")), (r0.get("f") if r0.get("f") is not None else r0.get("else"))
+                    if literal_value(tt) in (("int", 1), ("bool", True)) and literal_value(ff) in (("int", 0), ("bool", False)):
+                        r0 = ir.unwrap(cc)
                 if isinstance(r0, dict) and r0.get("k") == "call" and short(r0.get("name") or "") == "parse_env_value" and r0.get("args"):
                     target = r0["args"][0]
                 else:
